@@ -710,6 +710,11 @@ func c06Generate(r *rng, tier string, sm *summary) []c06Case {
 	}
 	thorough := tier == "thorough"
 
+	// the witnesses of the _refuted theorems of coq/Props/C06.v, replayed on the implementation
+	for _, w := range c06Witnesses() {
+		add(w.region, "witness:"+w.region, w.p)
+	}
+
 	// chain family: 4 depths x 10 values x levels x 7 placements
 	type chainKey struct {
 		d, lvl int
@@ -843,6 +848,40 @@ func c06Generate(r *rng, tier string, sm *summary) []c06Case {
 	}
 	_ = fmt.Sprint
 	return cases
+}
+
+type c06Witness struct {
+	region string
+	p      c06Prog
+}
+
+// c06Witnesses are the programs w_* / prog_arg_fixed 1 2 1 of Defer/Proofs.v.
+func c06Witnesses() []c06Witness {
+	n, l := "named", "lit"
+	return []c06Witness{
+		{"deferred-panic", c06Prog{Fns: []c06Fn{
+			{n, []c06Stmt{sDefer(1, aConst(0)), sDefer(2, aConst(0)), sPanic(c06Base{Kind: "int", Z: 1})}},
+			{n, []c06Stmt{sPrint(1)}},
+			{n, []c06Stmt{sPrint(2), sPanic(c06Base{Kind: "str", Z: 2})}}}}},
+		{"defer-arg-alias", c06Prog{Fns: []c06Fn{
+			{n, []c06Stmt{sSet(false, c06VarX, 1), sDefer(1, aOwn(c06VarX)), sSet(false, c06VarX, 2)}},
+			{n, []c06Stmt{sPrintVar(1, false, c06VarA)}}}}},
+		{"repanic-wrap", c06Prog{Fns: []c06Fn{
+			{n, []c06Stmt{sDefer(3, aConst(0)), sCall(1, aConst(0), false, 0)}},
+			{n, []c06Stmt{sDefer(2, aConst(0)), sPanic(c06Base{Kind: "int", Z: 5})}},
+			{l, []c06Stmt{sRecover(), sRepanic()}},
+			{l, []c06Stmt{sRecover()}}}}},
+		{"recover-stale", c06Prog{Fns: []c06Fn{
+			{n, []c06Stmt{sDefer(1, aConst(0)), sPanic(c06Base{Kind: "int", Z: 7})}},
+			{l, []c06Stmt{{K: "recloop"}}}}}},
+		{"closure-lock", c06Prog{Fns: []c06Fn{
+			{n, []c06Stmt{sDefer(1, aConst(0)), sPrint(1)}},
+			{l, []c06Stmt{{K: "callclo", Tag: 2}, sPrint(3)}}}}},
+		{"defer-forward-lit", c06Prog{Fwd: true, Fns: []c06Fn{
+			{n, []c06Stmt{sCall(1, aConst(0), false, 0), sPrint(1)}},
+			{l, []c06Stmt{sDefer(2, aConst(4))}},
+			{n, []c06Stmt{sPrintVar(2, false, c06VarA)}}}}},
+	}
 }
 
 // c06LitDefersNamed: some function literal defers a named function or a method.
